@@ -4,6 +4,7 @@ import datetime
 import itertools
 import json
 import random
+import yaml
 import sys
 from pathlib import Path
 
@@ -39,14 +40,19 @@ def all_paths(x, base=()):
     return out
 
 
-def stable(x):
-    """repr with sets in a canonical order (a set and its deep copy may iterate differently)"""
+def stable(x, _path=()):
+    """repr with sets in a canonical order (a set and its deep copy may iterate differently); a container that
+    contains itself (YAML aliases can build one) is printed as the distance to the ancestor it points back to"""
+    if isinstance(x, (dict, list)):
+        if id(x) in _path:
+            return f"<cycle:{len(_path) - _path.index(id(x))}>"
+        _path = _path + (id(x),)
     if isinstance(x, (set, frozenset)):
         return type(x).__name__ + "{" + ", ".join(sorted(stable(v) for v in x)) + "}"
     if isinstance(x, dict):
-        return "{" + ", ".join(stable(k) + ": " + stable(v) for k, v in x.items()) + "}"
+        return "{" + ", ".join(stable(k) + ": " + stable(v, _path) for k, v in x.items()) + "}"
     if isinstance(x, list):
-        return "[" + ", ".join(stable(v) for v in x) + "]"
+        return "[" + ", ".join(stable(v, _path) for v in x) + "]"
     if isinstance(x, tuple):
         return "(" + ", ".join(stable(v) for v in x) + ")"
     return repr(x)
@@ -217,6 +223,34 @@ class C04(core.PropBase):
             if envs_:
                 envs_[0]["variables"] = {nm: "v" for nm in names[:40]}
                 yield {"kind": kind, "doc": d, "tag": "global-name"}
+        # 3aa. documents that contain themselves (a YAML alias to an ancestor): every container position of a rich
+        #      template replaced by an alias to one of its ancestors; kept as YAML TEXT (no JSON form exists)
+        for kind in ("job", "env"):
+            doc = G.gen_env_template(rng, full=True) if kind == "env" else G.gen_job_template(rng, full=True)
+            text = yaml.safe_dump(doc, allow_unicode=True, sort_keys=False, default_flow_style=False)
+            lines = text.split("\n")
+            keyed = [i for i, l in enumerate(lines) if l.rstrip().endswith(":") and not l.lstrip().startswith("- ")]
+            for i in (keyed if thorough else rng.sample(keyed, min(len(keyed), 25))):
+                # anchor the container that starts at line i and alias it from a new member one level below it
+                ind = len(lines[i]) - len(lines[i].lstrip())
+                j = i + 1
+                if j >= len(lines) or not lines[j].strip():
+                    continue
+                ind2 = len(lines[j]) - len(lines[j].lstrip())
+                if ind2 < ind:
+                    continue
+                new = lines[:i] + [lines[i] + " &anc"] + lines[i + 1:j]
+                if lines[j].lstrip().startswith("- "):
+                    new += [" " * ind2 + "- *anc"]
+                else:
+                    new += [" " * ind2 + "selfRef: *anc"]
+                new += lines[j:]
+                yield {"kind": kind, "ytext": "\n".join(new), "tag": "cyclic"}
+            for t in ["steps: &s [*s]", "steps:\n- &s {name: S, script: *s}", "environment: &e {name: E, variables: *e}", "parameterDefinitions: &p\n- *p",
+                      "name: &n [*n]", "steps:\n- name: S\n  script:\n    actions:\n      onRun:\n        command: e\n        args: &a [*a]",
+                      "jobEnvironments: &j\n- name: E\n  variables: {A: b}\n  script: *j", "&root\nname: J\nsteps: *root", "&root\nenvironment: *root"]:
+                head = "specificationVersion: " + ("jobtemplate-2023-09" if kind == "job" else "environment-2023-09") + "\n"
+                yield {"kind": kind, "ytext": (t if t.startswith("&root") else head + t) + ("\nspecificationVersion: jobtemplate-2023-09" if t.startswith("&root") and kind == "job" else "\nspecificationVersion: environment-2023-09" if t.startswith("&root") else ""), "tag": "cyclic"}
         # 3b. long strings and long reference names at every string position of a rich template (lengths around
         #     the powers of two where a fixed-width counter, buffer or recursion budget would give out)
         for b in range(2 if thorough else 1):
@@ -279,7 +313,15 @@ class C04(core.PropBase):
                     except BaseException as e:  # noqa: BLE001
                         out.append("other:" + type(e).__name__)
             return ["docstr", sorted(set(o for o in out if o not in ("dict", "DVE")))]
-        doc = case["doc"]
+        if "ytext" in case:
+            try:
+                doc = document_string_to_object(document=case["ytext"], document_type=DocumentType.YAML)
+            except DecodeValidationError:
+                return ["decode", "DVE", "untouched"]
+            except BaseException as e:  # noqa: BLE001
+                return ["decode", "other:docstr:" + type(e).__name__, "untouched"]
+        else:
+            doc = case["doc"]
         before = copy.deepcopy(doc)
         try:
             (decode_job_template if case["kind"] == "job" else decode_environment_template)(template=doc)
@@ -298,6 +340,8 @@ class C04(core.PropBase):
         return res
 
     def requests(self, case):
+        if "ytext" in case:
+            return []          # no JSON form: totality only
         if case["kind"] == "docstr" or not jsonable(case["doc"]):
             return []
         if case.get("tag") == "long-string":
@@ -328,6 +372,11 @@ class C04(core.PropBase):
         if case["kind"] == "docstr":
             for s in case["strs"]:
                 yield dict(case, strs=[s])
+            return
+        if "ytext" in case:
+            lines = case["ytext"].split("\n")
+            for i in range(len(lines)):
+                yield dict(case, ytext="\n".join(lines[:i] + lines[i + 1:]))
             return
         doc = case["doc"]
         for p in all_paths(doc):
